@@ -248,6 +248,10 @@ func (this *BtcTxParam) Deserialization(source *common.ZeroCopySource) error {
 	if eof {
 		return fmt.Errorf("BtcFeeRateParam deserialize length of signature array error")
 	}
+	// every signature occupies at least one byte (its length prefix): never allocate for more than the input can hold
+	if l > source.Len() {
+		return fmt.Errorf("BtcFeeRateParam deserialize: signature count %d exceeds remaining data", l)
+	}
 	sigs := make([][]byte, l)
 	for i := uint64(0); i < l; i++ {
 		sigs[i], eof = source.NextVarBytes()
